@@ -14,4 +14,5 @@ for id in "$@"; do
   echo "$out" | grep -E "^\s+\[" | head -3 | cut -c1-400
 done
 git -C /repo checkout -- .
+git -C /repo clean -fdq -- geo geo-types jts-test-runner   # patches may add files
 git -C /repo status --short | head -3
